@@ -1629,6 +1629,8 @@ impl Server {
             "QUIT" => Ok(RespFrame::ok()),
             "EVAL" => {
                 use crate::storage::commands::lua::handle_eval_with_db;
+                // EVAL adds the script to the cache: EVALSHA finds it afterwards
+                self.cache_evaluated_script(parts);
                 let result = handle_eval_with_db(&self.storage, parts, db);
                 self.notify_keys_after_script(parts, db);
                 match result {
@@ -3502,11 +3504,11 @@ impl Server {
             return Ok(RespFrame::error("ERR wrong number of arguments for 'evalsha' command"));
         }
         
-        // Extract SHA1
+        // Extract SHA1 (the digest is not case sensitive)
         let sha1 = match &parts[1] {
             RespFrame::BulkString(Some(bytes)) => {
                 match std::str::from_utf8(bytes) {
-                    Ok(s) => s.to_string(),
+                    Ok(s) => s.to_lowercase(),
                     Err(_) => return Ok(RespFrame::error("ERR invalid SHA1 hash")),
                 }
             }
@@ -3531,6 +3533,28 @@ impl Server {
         crate::storage::commands::lua::handle_eval_with_db(&self.storage, &eval_parts, db)
     }
     
+    /// EVAL adds a script that compiles to the global script cache, as SCRIPT LOAD does
+    fn cache_evaluated_script(&self, parts: &[RespFrame]) {
+        let script = match parts.get(1) {
+            Some(RespFrame::BulkString(Some(bytes))) => match std::str::from_utf8(bytes) {
+                Ok(s) => s,
+                Err(_) => return,
+            },
+            _ => return,
+        };
+        let lua_engine = match crate::storage::lua_engine::get_lua_engine(self.storage.clone()) {
+            Ok(engine) => engine,
+            Err(_) => return,
+        };
+        let sha1 = lua_engine.calculate_script_sha1(script);
+        if let Ok(false) = self.script_cache.contains_key(&sha1) {
+            // script_load checks that the script compiles
+            if lua_engine.script_load(script).is_ok() {
+                let _ = self.script_cache.insert(sha1, script.to_string());
+            }
+        }
+    }
+    
     /// The EVAL command an EVALSHA amounts to: the cached script in place of its hash
     /// (None if the hash names no cached script)
     fn evalsha_as_eval(&self, parts: &[RespFrame]) -> Option<Vec<RespFrame>> {
@@ -3538,10 +3562,10 @@ impl Server {
             return None;
         }
         let sha1 = match &parts[1] {
-            RespFrame::BulkString(Some(bytes)) => std::str::from_utf8(bytes).ok()?,
+            RespFrame::BulkString(Some(bytes)) => std::str::from_utf8(bytes).ok()?.to_lowercase(),
             _ => return None,
         };
-        let script = self.script_cache.get(sha1).ok()??;
+        let script = self.script_cache.get(&sha1).ok()??;
         let mut eval_parts = vec![RespFrame::bulk_string("EVAL"), RespFrame::bulk_string(script)];
         eval_parts.extend_from_slice(&parts[2..]);
         Some(eval_parts)
@@ -3618,7 +3642,7 @@ impl Server {
                     let sha1 = match &parts[i] {
                         RespFrame::BulkString(Some(bytes)) => {
                             match std::str::from_utf8(bytes) {
-                                Ok(s) => s.to_string(),
+                                Ok(s) => s.to_lowercase(),
                                 Err(_) => {
                                     results.push(RespFrame::Integer(0));
                                     continue;
